@@ -18,3 +18,24 @@ package gmqtt
 //@ ensures [C12] version == 5 && msg.MessageExpiry == 0 ==> result.Properties.MessageExpiry == nil
 //@ ensures [C01] version == 5 ==> result.Properties.SubscriptionIdentifier == msg.SubscriptionIdentifier && result.Properties.User == msg.UserProperties && result.Properties.CorrelationData == msg.CorrelationData
 //@ ensures [C01] version != 5 ==> result.Properties == nil
+
+// MessageFromPublish: the application message of an inbound PUBLISH.
+//@ func MessageFromPublish
+//@ props C01 C07
+//@ requires p != nil && (p.Version == 5 ==> p.Properties != nil)
+//@ ensures [C01] result != nil && isfresh(result)
+//@ ensures [C01] result.Dup == p.Dup && result.QoS == p.Qos && result.Retained == p.Retain && result.Payload == p.Payload && result.PacketID == 0
+//@ ensures [C01] result.Topic == string(p.TopicName)
+//@ ensures [C12] p.Version == 5 && p.Properties.MessageExpiry != nil ==> result.MessageExpiry == *p.Properties.MessageExpiry
+//@ ensures [C12] !(p.Version == 5 && p.Properties.MessageExpiry != nil) ==> result.MessageExpiry == 0
+
+// Copy: a deep copy with the same field values.
+//@ func (*Message).Copy
+//@ props C01 C07
+//@ requires m != nil
+//@ ensures [C01] result != nil && isfresh(result)
+//@ ensures [C01] result.Dup == m.Dup && result.QoS == m.QoS && result.Retained == m.Retained && result.Topic == m.Topic && result.PacketID == m.PacketID && result.MessageExpiry == m.MessageExpiry && result.ContentType == m.ContentType && result.PayloadFormat == m.PayloadFormat && result.ResponseTopic == m.ResponseTopic
+//@ ensures [C01] len(result.Payload) == len(m.Payload) && (forall i int :: 0 <= i && i < len(m.Payload) ==> result.Payload[i] == m.Payload[i])
+//@ ensures [C01] m.Dup == old(m.Dup) && m.QoS == old(m.QoS) && m.Retained == old(m.Retained) && m.Topic == old(m.Topic)
+//@ loop 1 invariant newMsg != nil && isfresh(newMsg) && len(newMsg.Payload) == len(m.Payload) && (forall i int :: 0 <= i && i < len(m.Payload) ==> newMsg.Payload[i] == m.Payload[i])
+//@ loop 1 invariant len(newMsg.Payload) == 0 || isfresh(newMsg.Payload)
